@@ -83,9 +83,28 @@ def pmap(modname, fname, cfgs, procs=None, chunksize=1):
     procs = procs or min(16, max(1, len(cfgs)))
     if os.environ.get("VERIF_SERIAL") or procs == 1 or len(cfgs) <= 1:
         return [_worker((modname, fname, c)) for c in cfgs]
+    import concurrent.futures as cf
+
     ctx = multiprocessing.get_context("fork")
-    with ctx.Pool(procs) as pool:
-        return list(pool.imap_unordered(_worker, [(modname, fname, c) for c in cfgs], chunksize))
+    out = []
+    budget = float(os.environ.get("VERIF_CONFIG_TIMEOUT", "3600"))
+    with cf.ProcessPoolExecutor(max_workers=procs, mp_context=ctx) as ex:
+        futs = {ex.submit(_worker, (modname, fname, c)): c for c in cfgs}
+        try:
+            for f in cf.as_completed(futs, timeout=budget):
+                try:
+                    out.append(f.result())
+                except BaseException as e:  # a worker died (e.g. the real code crashed the interpreter)
+                    out.append(dict(stats=sx.Stats().as_dict(), violations=[], validated=0, wall=0, cfg=sx.jsonable(futs[f]),
+                                    errors=[f"worker died: {type(e).__name__}: {str(e)[:200]} @ {sx.jsonable(futs[f])}"]))
+        except cf.TimeoutError:
+            for f, c in futs.items():
+                if not f.done():
+                    out.append(dict(stats=sx.Stats().as_dict(), violations=[], validated=0, wall=budget, cfg=sx.jsonable(c),
+                                    errors=[f"configuration timed out after {budget}s: {sx.jsonable(c)}"]))
+            for p in list(getattr(ex, "_processes", {}).values()):
+                p.kill()
+    return out
 
 
 class Report:
